@@ -282,6 +282,39 @@ def binder_trees():
                     yield Node("module", r0, [Node("function", owner, [Node("class", mid, [copy()])])])
 
 
+def chain_trees():
+    """a reader several function levels below the function that OWNS a same-named variable, the functions in between being
+    silent about the name (or only some of them mentioning it): the reader declares the name global (read / assign / augment),
+    reads it as a free variable, rebinds it through nonlocal, or is a class body / a lambda / a comprehension reading it"""
+    readers = [lambda: Node("function", "global-read"), lambda: Node("function", "global-assign"),
+               lambda: Node("function", "read"), lambda: Node("function", "nonlocal-assign"), lambda: Node("function", "nonlocal-aug"),
+               lambda: Node("class", "global-read"), lambda: Node("class", "read"), lambda: Node("class", "assign"),
+               lambda: Node("function", "none", [Node("lambda", "read")]), lambda: Node("function", "none", [Node("comp", "read")]),
+               lambda: Node("function", "global-read", [Node("lambda", "read")]),
+               lambda: Node("function", "none", [Node("comp", "iter-read")]),
+               lambda: Node("function", "none", [Node("lambda", "none", [Node("comp", "read")])])]
+    for r0 in ("assign", "none"):
+        for owner in ("assign", "param", "for", "param-default", "param-kwonly"):
+            for mids in (("none",), ("none", "none"), ("read", "none"), ("none", "read"), ("none", "none", "none"),
+                         # a function in between DECLARES the name global: below it the name means the module's variable again
+                         ("global-read",), ("global-assign",), ("global-read", "none")):
+                for mk in readers:
+                    t = mk()
+                    for m in reversed(mids):
+                        t = Node("function", m, [t])
+                    yield Node("module", r0, [Node("function", owner, [t])])
+                    # the owner sits in a class body's method position: module > class > method(owner) > ...
+                    if owner in ("assign", "param") and len(mids) <= 2:
+                        t2 = mk()
+                        for m in reversed(mids):
+                            t2 = Node("function", m, [t2])
+                        yield Node("module", r0, [Node("class", "none", [Node("function", owner, [t2])])])
+
+
+def has_kind(t, kind):
+    return t.kind == kind or any(has_kind(c, kind) for c in t.children)
+
+
 def random_tree(rng, kind="module", depth=4, max_children=2, parent=None):
     role = rng.choice(roles_of(kind, parent))
     kids = []
